@@ -192,6 +192,9 @@ func runScenario(sc Scenario, dir string) ([]verif.Event, *RunResult) {
 			res.Snapshots++
 		}
 	}
+	if sc.Mode == "bytes" || sc.Mode == "core" {
+		r.tornPublishStep()
+	}
 	if sc.Vanish {
 		r.vanishStep()
 	}
@@ -655,7 +658,21 @@ func (r *Run) rdyZeroStep() {
 		return
 	}
 	time.Sleep(50 * time.Millisecond)
-	switch r.rng.Intn(4) {
+	watch := []*consumer{z}
+	switch r.rng.Intn(5) {
+	case 4:
+		// the pause comes first, the subscription second: a consumer that connects to a paused channel gets nothing either
+		r.httpAdmin("/channel/pause?topic=" + t + "&channel=zch")
+		z2, err := r.newConsumer(t, "zch", 0, 5)
+		if err != nil {
+			r.inconclusive("rdyzero late subscriber: %v", err)
+			return
+		}
+		if _, err := z2.cn.barrier(20 * time.Second); err != nil {
+			r.inconclusive("rdyzero barrier: %v", err)
+			return
+		}
+		watch = append(watch, z2)
 	case 0:
 		z.cn.cmd("RDY", "", "0")
 		z.rdy = 0
@@ -682,14 +699,16 @@ func (r *Run) rdyZeroStep() {
 	}
 	time.Sleep(300 * time.Millisecond)
 	// client-side view of the same clause: the connection must not have been handed the message
-	for {
-		f, ok := z.cn.next(10 * time.Millisecond)
-		if !ok {
-			break
-		}
-		if f.Type == 2 && keyOf(f.Body) == key {
-			r.failf("[C03] a message published 1.3 s after the consumer's RDY 0 / CLS / channel pause had been processed was sent to it")
-			z.held[f.ID] = time.Now()
+	for _, w := range watch {
+		for {
+			f, ok := w.cn.next(10 * time.Millisecond)
+			if !ok {
+				break
+			}
+			if f.Type == 2 && keyOf(f.Body) == key {
+				r.failf("[C03] a message published 1.3 s after the consumer's RDY 0 / CLS / channel pause had been processed was sent to it")
+				w.held[f.ID] = time.Now()
+			}
 		}
 	}
 }
@@ -877,4 +896,58 @@ func (r *Run) pauseBacklogStep() {
 		time.Sleep(30 * time.Millisecond) // anything handed over now was handed over after the acknowledged pause
 	}
 	r.httpAdmin("/topic/unpause?topic=" + t)
+}
+
+// tornPublishStep: publishers that die in the middle of a body (PUB, DPUB, the second message of an MPUB), with bodies
+// larger than the connection's read buffer: nothing of them is ever published (C07: what is delivered is what was
+// published, whole; C09: a rejected publish enqueues nothing, MPUB is all-or-nothing).  Their keys are in nobody's
+// ledger, so a delivery of any of them is reported as a body that was never published.
+func (r *Run) tornPublishStep() {
+	t := r.sc.Topics[0]
+	for i, kind := range []string{"PUB", "DPUB", "MPUB"} {
+		cn, err := dial(r.nd.TCP, r.newConnName("torn"))
+		if err != nil {
+			return
+		}
+		if _, err := cn.identify(nil); err != nil {
+			cn.close()
+			return
+		}
+		size := []int{17000, 40000, 70000}[r.rng.Intn(3)]
+		if size > r.maxMsgSize()-100 {
+			size = r.maxMsgSize() - 100
+		}
+		body := make([]byte, size)
+		r.rng.Read(body)
+		copy(body, []byte(fmt.Sprintf("torn-%d|", i)))
+		part := size/2 + r.rng.Intn(size/4)
+		var buf bytes.Buffer
+		be := func(n int) []byte { b := make([]byte, 4); binary.BigEndian.PutUint32(b, uint32(n)); return b }
+		switch kind {
+		case "PUB":
+			buf.WriteString("PUB " + t + "\n")
+			buf.Write(be(size))
+			buf.Write(body[:part])
+		case "DPUB":
+			buf.WriteString("DPUB " + t + " 20\n")
+			buf.Write(be(size))
+			buf.Write(body[:part])
+		case "MPUB":
+			first := append([]byte("torn-m|"), body[8:size/2]...)
+			buf.WriteString("MPUB " + t + "\n")
+			buf.Write(be(4 + 4 + len(first) + 4 + size))
+			buf.Write(be(2))
+			buf.Write(be(len(first)))
+			buf.Write(first)
+			buf.Write(be(size))
+			buf.Write(body[:part])
+		}
+		cn.wmu.Lock()
+		cn.c.SetWriteDeadline(time.Now().Add(10 * time.Second))
+		cn.c.Write(buf.Bytes())
+		cn.wmu.Unlock()
+		time.Sleep(5 * time.Millisecond)
+		cn.close()
+	}
+	time.Sleep(50 * time.Millisecond)
 }
